@@ -1,7 +1,25 @@
-//! Scenario crate `scn-user` (chain-level simulation on the chainsim runtime).
+//! Scenario crate `scn-user` (chain-level simulation on the chainsim runtime): referrals (C33), order-fee discount
+//! (C31), GT balances / cost / ranks / exchange windows (C30).
 
-pub const PROPERTIES: &[&str] = &[];
+pub mod common;
+pub mod discount;
+pub mod gt;
+pub mod referral;
 
-pub fn registry(_property: &str) -> Option<simcore::CheckSpec> {
-    None
+use simcore::{CheckSpec, Part};
+
+pub const PROPERTIES: &[&str] = &["C33"];
+
+pub fn registry(property: &str) -> Option<CheckSpec> {
+    match property {
+        "C33" => Some(CheckSpec {
+            property: "C33",
+            level: "exploration",
+            parts: vec![Part::new(referral::ReferralSim, 50_000, 900_000)],
+            assumptions: vec![
+                "a single store (the multi-store feature is off); wallets are funded; only user <-> user and code <-> code account substitutions are tried as byzantine twins".into(),
+            ],
+        }),
+        _ => None,
+    }
 }
